@@ -155,6 +155,10 @@ func runApply(s *scratch, orig []byte, ps []patch, viaDump bool, pathMode int, m
 		}
 		return leftovers(dir, pathMode)
 	}
+	if st, serr := os.Stat(final); serr == nil && st.Size() != int64(len(want)) {
+		// compare sizes first: a wrong size may be gigabytes of sparse file
+		return fmt.Sprintf("output is %d bytes long, want %d (%q)", st.Size(), len(want), clip(want))
+	}
 	got, rerr := os.ReadFile(final)
 	if rerr != nil {
 		return fmt.Sprintf("output unreadable: %v", rerr)
@@ -649,6 +653,9 @@ func TestC12_Over4GiB(t *testing.T) {
 		rec.Sample("sparse", map[string]any{"file_len": total, "remove_off": off, "remove_len": old, "blob_len": len(blob), "other_path": other})
 		if err := signers.ApplyBinPatch(f, outpath, bytes.NewReader(set.Dump())); err != nil {
 			t.Fatalf("apply: %v", err)
+		}
+		if st, serr := os.Stat(outpath); serr == nil && st.Size() != int64(len(want)) {
+			t.Fatalf("removing %d bytes at %d from %d-byte file: output is %d bytes long, want %d", old, off, total, st.Size(), len(want))
 		}
 		got, err := os.ReadFile(outpath)
 		if err != nil {
